@@ -238,7 +238,7 @@ class SimFileHandler(urllib.request.BaseHandler):
             w.fired(f)
             raise urllib.error.URLError(FileNotFoundError(
                 errno.ENOENT, "No such file or directory", url))
-        text = w.store.get(url)
+        text = w.lookup(url)
         if text is None and url.startswith("file:"):
             path = urllib.request.url2pathname(
                 urllib.parse.urlsplit(url).path)
@@ -289,7 +289,7 @@ class FakeSocket:
         url = "http://%s%s" % (self.host, path)
         fault = w.pending_http_fault
         w.pending_http_fault = None
-        text = w.store.get(url)
+        text = w.lookup(url)
         status = "200 OK"
         extra = 0
         if fault is not None:
@@ -490,6 +490,20 @@ class SimWorld:
         #                          by ordinal; set by the property module)
         self._reset_op()
         self._installed = False
+
+    def lookup(self, url):
+        """Content behind *url*.  A file system and an HTTP server decode
+        %XX escapes before they look anything up: two spellings of a URL
+        that differ only in what is escaped name the same resource."""
+        text = self.store.get(url)
+        if text is None and url.startswith(("file:", "http:")):
+            want = urllib.parse.unquote(url)
+            for k in self.store:
+                if k != url and k.startswith(("file:", "http:")) \
+                        and urllib.parse.unquote(k) == want:
+                    self.probe("resource-reached-by-another-escaping")
+                    return self.store[k]
+        return text
 
     # -- trace -------------------------------------------------------------
 
